@@ -1349,6 +1349,8 @@ def r516(rep: Report, ctx: Ctx) -> None:
     rep.rule("R5.16", "gate tree -> node logic -> logic block: translation, "
              "initial block state, merge validation, Event -> Node", 38)
     check_table(rep, ctx, "R5.16", TABLE, list(TABLE))
+    from .walkspec import MERGE_TABLE
+    check_table(rep, ctx, "R5.16", MERGE_TABLE, list(MERGE_TABLE))
 
 
 def r517(rep: Report, ctx: Ctx) -> None:
